@@ -232,7 +232,7 @@ func c01StreamLength(e *Env, rule string) {
 			construct := fmt.Sprintf("tcp/coder.getHeader↔DecodeHeader:class %s tkl=%d", c.name, tkl)
 			it := core.NewInterp(e.P)
 			n := core.SymInt("n", ib, true, bigI(c.lo), bigI(c.hi), 0)
-			og := it.Run(gh, []*core.AVal{n}, nil)
+			og := it.Run(gh, padScratch(gh, []*core.AVal{n}), nil)
 			if len(og) != 1 || og[0].Abort || og[0].Panic || len(og[0].Ret) != 2 {
 				e.R.Fail(rule, construct, e.fpos(gh), "getHeader has no single abstract outcome on the class: "+core.SummarizeOutcomes(og))
 				continue
@@ -316,7 +316,7 @@ func c01StreamLength(e *Env, rule string) {
 	okAll, why := true, ""
 	for nv := int64(0); nv <= 12; nv++ {
 		it := core.NewInterp(e.P)
-		og := it.Run(gh, []*core.AVal{core.ConstAInt(bigI(nv), ib, true)}, nil)
+		og := it.Run(gh, padScratch(gh, []*core.AVal{core.ConstAInt(bigI(nv), ib, true)}), nil)
 		if len(og) != 1 || len(og[0].Ret) != 2 {
 			okAll, why = false, "no outcome"
 			continue
@@ -330,7 +330,7 @@ func c01StreamLength(e *Env, rule string) {
 	// beyond the maximum the encoder must not produce a frame at all (Encode refuses or header is impossible): informational structural check
 	for _, b := range []struct{ v, nib int64 }{{12, 12}, {13, 13}, {268, 13}, {269, 14}, {65804, 14}, {65805, 15}} {
 		it := core.NewInterp(e.P)
-		og := it.Run(gh, []*core.AVal{core.ConstAInt(bigI(b.v), ib, true)}, nil)
+		og := it.Run(gh, padScratch(gh, []*core.AVal{core.ConstAInt(bigI(b.v), ib, true)}), nil)
 		ok := len(og) == 1 && len(og[0].Ret) == 2
 		if ok {
 			k, isC := og[0].Ret[0].IsConst()
@@ -1165,4 +1165,19 @@ func highWithinLen(e *Env, sl *ssa.Slice) bool {
 		}
 	}
 	return false
+}
+
+// padScratch: an encoder helper that was given an extra scratch-buffer parameter (`getHeader(n, scratch []byte)`) is run with a nil
+// slice for it (append then allocates): the rule speaks about the bytes produced, not about where they are put.
+func padScratch(fn *ssa.Function, args []*core.AVal) []*core.AVal {
+	for i := len(args); i < len(fn.Params); i++ {
+		if sl, ok := fn.Params[i].Type().Underlying().(*types.Slice); ok {
+			if b, isB := sl.Elem().Underlying().(*types.Basic); isB && b.Kind() == types.Uint8 {
+				args = append(args, &core.AVal{K: core.ABytes, Arr: -1})
+				continue
+			}
+		}
+		return args
+	}
+	return args
 }
